@@ -14,7 +14,8 @@ def dbits(x):
 
 SHAPES = [(1000,), (300,), (64,), (30, 40), (10, 10), (8, 9, 10), (6, 6, 6), (15,)]
 CFGS = ["szMode=SZ_BEST_SPEED", "-", "szMode=SZ_BEST_SPEED;quantization_intervals=256", "szMode=SZ_BEST_SPEED;protectValueRange=YES",
-        "quantization_intervals=64;protectValueRange=YES", "szMode=SZ_BEST_SPEED;withLinearRegression=NO"]
+        "quantization_intervals=64;protectValueRange=YES", "szMode=SZ_BEST_SPEED;withLinearRegression=NO", "szMode=SZ_DEFAULT_COMPRESSION",
+        "szMode=SZ_DEFAULT_COMPRESSION;losslessCompressor=GZIP_COMPRESSOR"]
 
 
 def gen_spec(rng, same=None):
